@@ -330,8 +330,10 @@ def _splice(u, text, spec, file, line0, name, where):
     for m in re.finditer(r"\n", body):
         body_lines_start.append(m.end())
     for (kind, nth, needle, lines) in spec.inserts:
+        def _hit(line):
+            return re.search(needle[3:], line) is not None if needle.startswith("re:") else needle in line
         hits = [ls for ls in body_lines_start
-                if needle in body[ls:(body.find("\n", ls) if body.find("\n", ls) >= 0 else len(body))]]
+                if _hit(body[ls:(body.find("\n", ls) if body.find("\n", ls) >= 0 else len(body))])]
         if len(hits) < nth:
             raise ExtractError("%s: anchor \"%s\" (#%d) not found in %s" % (where, needle, nth, name))
         ls = hits[nth - 1]
